@@ -23,6 +23,8 @@ def run(ctx):
                       "with a method-caller callback rebuilt for the copy and a foreign callback kept", floor=1)
     ctx.rule("R17.j", "copy-only hooks share nothing: every __deepcopy__ / __copy__ defined in param or numbergen puts into the new object only values that went through copy.deepcopy "
                       "(or constants); on the pinned tree there is none, so deepcopy and pickle both go through __getstate__ / __setstate__ and cannot disagree", floor=1)
+    ctx.rule("R17.k", "a copied number generator behaves like the original: numbergen.Hash.__init__ and Hash.__setstate__ (what deepcopy and pickle go through) feed the md5 state the same inputs "
+                      "(shared with R19.g)", floor=1)
     ctx.rule("R17.f", "a copy starts outside any batch/trigger scope of the original: the transient dispatcher state (parameters_state) is reset after the saved attributes "
                       "were restored, or is excluded from the saved state", floor=1)
     ctx.rule("R17.g", "get_all_slots (used by Parameterized.__getstate__ for slot-held attributes) returns the slots of the class itself and of every base, "
@@ -259,6 +261,9 @@ def run(ctx):
         ctx.fail("R17.g", gas, gas.node, "get_all_slots of a class Leaf(Mid(Base)) with own slots [l1, l2] and inherited [b1] returns %s: slot-held attributes of %s are not saved by "
                                          "__getstate__ and are missing from copies" % (got, "the class itself" if got is not None and "l1" not in got else "a base"),
                  key=gas.qualname + "::incomplete-slots", input="class with its own __slots__; deepcopy/pickle drops the slot-held attribute")
+
+    from checks.c19 import hash_state_agreement
+    hash_state_agreement(ctx, "R17.k")
 
     # ---------------------------------------------------------------- R17.j
     hooks_ = [g for g in ctx.repo.all_funcs() if g.name in ("__deepcopy__", "__copy__") and g.cls is not None]
